@@ -66,7 +66,7 @@ def _consistent(pargs, aargs):
 
 class Ref(object):
     __slots__ = ("status", "probs", "nworlds", "nchoices", "query_undefined", "any_undefined", "ground_negcycle",
-                 "pe", "qatoms", "natoms", "nrules", "joint")
+                 "pe", "qatoms", "natoms", "nrules", "joint", "dead_body_in_cycle")
 
     def __init__(self):
         self.status = "ok"
@@ -81,6 +81,7 @@ class Ref(object):
         self.natoms = 0
         self.nrules = 0
         self.joint = None
+        self.dead_body_in_cycle = False
 
 
 def _lfp(rules, blocked_by, n_atoms):
@@ -165,7 +166,7 @@ def ground_negcycle(grules):
     return any(reach(a, h) for h, a in negedges)
 
 
-def reference(prog, max_worlds=1 << 12, extra_queries=(), want_joint=False, full_negcycle=True):
+def reference(prog, max_worlds=1 << 12, extra_queries=(), want_joint=False, full_negcycle=True, cyc_preds=()):
     R = Ref()
     grules, groups, poss = prepare(prog)
     byhead = {}
@@ -219,6 +220,10 @@ def reference(prog, max_worlds=1 << 12, extra_queries=(), want_joint=False, full
     pq = {a: F(0) for a in qatoms}
     joint = {} if want_joint else None
     watch = set(i for _, i in qi) | set(i for i, _ in ei)
+    # ground rules with a negative literal whose head predicate is on a positive cycle: is the body ever true?
+    cand = [(ai(h), tuple(ai(a) for a in pos), tuple(ai(a) for a in neg)) for h, pos, neg, ch in rrules
+            if neg and h[0] in cyc_preds]
+    alive = [False] * len(cand)
     for combo in itertools.product(*[range(len(groups[g])) for g in rgroups]):
         w = F(1)
         for g, o in zip(rgroups, combo):
@@ -230,6 +235,9 @@ def reference(prog, max_worlds=1 << 12, extra_queries=(), want_joint=False, full
             if o:
                 rules.extend(chr_.get((g, o), ()))
         true, undef = wfm(rules, n_atoms, has_neg)
+        for k, (h, pos, neg) in enumerate(cand):
+            if not alive[k] and all(a in true for a in pos) and not any(a in true for a in neg):
+                alive[k] = True
         if undef:
             R.any_undefined = True
             if undef & watch:
@@ -243,6 +251,7 @@ def reference(prog, max_worlds=1 << 12, extra_queries=(), want_joint=False, full
                 k = tuple(i in true for _, i in qi)
                 joint[k] = joint.get(k, F(0)) + w
     R.pe = pe
+    R.dead_body_in_cycle = not all(alive)
     if pe == 0:
         R.status = "inconsistent"
         return R
